@@ -93,9 +93,11 @@ def run(ctx):
             ctx.ob('6m digest-covers-the-whole-key #%d' % i, 'K4-provenance', hkb.path, 'the bytes fed to the key digest are the key parameter itself, not a sub-range of it (keys longer than the fixed head stay distinct)',
                    ok, 'digest input %s' % ('is a sub-range: ' + ', '.join(sub) if sub else 'does not derive from the key parameter'), hkb.loc(x))
     hk = sorted(F.direct_callers_of('column::hash_key'))
-    allowed = {'column::HashColumn::hash_key', 'db::IndexedChangeSet::push::{closure#0}', 'db::DbInner::commit_changes'}
+    allowed = {'column::HashColumn::hash_key', 'db::IndexedChangeSet::push', 'db::DbInner::commit_changes'}
+    # (a helper or closure reachable only through an allowed function counts as that function)
+    stray = [h for h in hk if not h.startswith('migration::') and not (lib.strip_closures(h) in allowed or lib.confined_through(F, h, allowed))]
     ctx.ob('6b hash_key-callers', 'K4-confinement', ','.join(hk), 'reader side (HashColumn::hash_key) and writer side (IndexedChangeSet::push, commit_changes) all go through column::hash_key',
-           set(hk) <= allowed | {h for h in hk if h.startswith('migration::')} and 'column::HashColumn::hash_key' in hk and 'db::IndexedChangeSet::push::{closure#0}' in hk, str(hk))
+           not stray and 'column::HashColumn::hash_key' in hk and any(lib.strip_closures(h) == 'db::IndexedChangeSet::push' or lib.confined_through(F, h, {'db::IndexedChangeSet::push'}) for h in hk), str(stray or hk))
     # reads hash with the same function: DbInner::get -> HashColumn::hash_key
     for fn in ('db::DbInner::get', 'db::DbInner::get_size'):
         b = ctx.body(fn)
